@@ -131,6 +131,8 @@ type FnVC struct {
 	panicCnt      int
 	deferred      []*ssa.Defer
 	panicSite     string // non-empty while the exceptional path of a call is translated
+	frameOK       map[string]bool // versions of modifies-since heaps whose frame condition has been established (cut points)
+	sinceCache    map[string]bool
 	allocPos      map[token.Pos]*ssa.Alloc
 	safetyAssumed int
 	behavClause   bool
@@ -1095,6 +1097,7 @@ func (v *FnVC) enterBlock(b *ssa.BasicBlock) {
 	bi.point = bi.reach
 	// merge states
 	st := State{}
+	var mergedOK []string
 	keys := map[string]bool{}
 	for _, in := range ins {
 		for k := range in.st {
@@ -1135,8 +1138,27 @@ func (v *FnVC) enterBlock(b *ssa.BasicBlock) {
 		} else {
 			st[k] = v.define(k+".b"+strconv.Itoa(b.Index), hs, term)
 		}
+		// every incoming version of a modifies-since heap already satisfies the frame condition (cut points after
+		// the calls that produced them): so does the merged one
+		if v.frameOK != nil && v.isSinceKey(k) {
+			all := true
+			for _, t := range vals {
+				if !v.frameOK[t] && t != v.init(k) {
+					all = false
+				}
+			}
+			if all {
+				mergedOK = append(mergedOK, k)
+			}
+		}
 	}
 	v.st = st
+	for _, k := range mergedOK {
+		if g, ok := v.frameGoals([]string{k})[k]; ok {
+			v.assume(g)
+			v.frameOK[st[k]] = true
+		}
+	}
 	// redundant but cheap for the solver: the allocation pointer only grows, so at a merge it is at least what it
 	// was at the end of the immediate dominator (saves a case split over the incoming edges)
 	if d := b.Idom(); d != nil && len(ins) > 1 {
@@ -1523,4 +1545,14 @@ func (v *FnVC) ghostSets(anchor string, env *Env) {
 		}
 		v.ghostAssignSafe(i, gs[1], gs[2], e2)
 	}
+}
+
+func (v *FnVC) isSinceKey(k string) bool {
+	if v.fc == nil || v.fc.SinceGhost == "" {
+		return false
+	}
+	if v.sinceCache == nil {
+		v.sinceCache = v.sinceKeys(v.fc)
+	}
+	return v.sinceCache[k]
 }
